@@ -58,6 +58,7 @@ structure Sess where
   forest : List Tree := []
   mlevels : List (Nat × Int) := []
   heap : Heap := {}
+  pheap : PHeap := {}
   deriving Inhabited
 
 def Sess.val (s : Sess) (p : Nat) : Int := (s.vals.getD p none).getD 0
@@ -401,6 +402,45 @@ def doCache (s : Sess) (ws : List String) : Option (Sess × List String) :=
   | _ => none
 
 
+/-! ## the pixel-count / peak cache machine (C14) -/
+
+def pheapOfForest (val : Nat → Int) (f : List Tree) : PHeap :=
+  let rs := rows f
+  { objs := rs.map fun r => { id := r.id, parent := r.parent, kids := r.kids, own := r.own.map fun p => (p, val p) },
+    alive := rs.map (·.id) }
+
+def optPk : Option (Nat × Int) → String
+  | none => "-"
+  | some (p, v) => s!"{p}:{v}"
+
+def pcacheState (h : PHeap) : List String :=
+  (h.objs.filter fun o => h.alive.contains o.id).map fun o =>
+    s!"c id={o.id} par={optNat o.parent} kids={joinNat o.kids} nown={o.own.length} npix={optNat o.npixTot} peak={optPk o.peak} peaksub={optPk o.peakSub}"
+
+def doPCache (s : Sess) (ws : List String) : Option (Sess × List String) :=
+  match ws with
+  | ["init"] =>
+    let h := pheapOfForest s.val s.forest
+    some ({ s with pheap := h }, pcacheState h ++ ["end"])
+  | ["q", "npix", i] => do
+    let i ← i.toNat?
+    let r := s.pheap.getNpix s.pheap.size i
+    some ({ s with pheap := r.1 }, [s!"ans {optNat r.2}"] ++ pcacheState r.1 ++ ["end"])
+  | ["q", "peak", i, sub] => do
+    let i ← i.toNat?
+    let r := s.pheap.getPeak s.pheap.size i (sub == "1")
+    some ({ s with pheap := r.1 }, [s!"ans {optPk r.2}"] ++ pcacheState r.1 ++ ["end"])
+  | ["prune", merges] => do
+    let ms ← parseNatList merges
+    let h := s.pheap.prune ms
+    some ({ s with pheap := h }, pcacheState h ++ ["end"])
+  | ["spec"] =>
+    let h := s.pheap
+    some (s, ((h.objs.filter fun o => h.alive.contains o.id).map fun o =>
+      s!"s id={o.id} npix={h.specCount h.size o.id} peak={optPk (h.specPeak o.id)} peaksub={optPk (h.specPeakSub h.size o.id)}") ++ ["end"])
+  | _ => none
+
+
 /-! ## loading an arbitrary forest: `id:own+own(child,child)` separated by `;` -/
 
 def takeDigits (s : List Char) : List Char × List Char := takeWhileC Char.isDigit s
@@ -502,6 +542,10 @@ def handle (s : Sess) (line : String) : Sess × List String :=
     match doCache s rest with
     | some (s', out) => (s', out)
     | none => (s, ["bad-op cache", "end"])
+  | "pcache" :: rest =>
+    match doPCache s rest with
+    | some (s', out) => (s', out)
+    | none => (s, ["bad-op pcache", "end"])
   | "pick" :: rest =>
     let m := kvs rest
     match (look m "ls").bind parseNatList, (look m "peaks").bind parseKeyTable, (look m "ind").bind parseNatList with
